@@ -30,16 +30,18 @@ def PartsWF (lo hi : Int) : List (Int × Int) → Prop
   | [(a, b)] => lo ≤ a ∧ a ≤ b ∧ b ≤ hi
   | (a, b) :: (c, d) :: rest => lo ≤ a ∧ a ≤ b ∧ b < c ∧ PartsWF lo hi ((c, d) :: rest)
 
-/-- RFC 7950 §9.3.1: optional sign, digits, optionally a point and digits.  `ip`, `fr` are the two digit strings. -/
-def DecLex (core : Bytes) (sg ip fr : Bytes) (point : Bool) : Prop :=
-  IsSign sg ∧ ip.all isDigit = true ∧ fr.all isDigit = true ∧
-  (core = if point then sg ++ ip ++ [46] ++ fr else sg ++ ip) ∧ (point = true → fr ≠ []) ∧ (point = false → fr = [])
-
-/-- denotation of a decimal64 lexical value as a mantissa with `fd` fraction digits, when it is representable:
-    the fraction digits beyond `fd` must all be zero -/
-def decDenotes (fd : Nat) (sg ip fr : Bytes) (k : Int) : Prop :=
-  ∃ frs : Bytes, frs.length ≤ fd ∧ (∃ z : Nat, fr = frs ++ zeros z) ∧ (frs.getLast? ≠ some 48) ∧
-    k = applySign sg (valOf 10 (ip ++ frs ++ zeros (fd - frs.length)))
+/-- RFC 7950 §9.3.1 with libyang's whitespace tolerance: optional sign, one or more digits, optionally a point followed by
+    one or more digits.  `k` is the denotation as a mantissa with `fd` fraction digits: the value of the digit string
+    `ip.fr` equals `k · 10^-fd`, written without fractions as `k · 10^|fr| = ±(ip fr) · 10^fd` (so more than `fd`
+    fraction digits are fine exactly when the surplus ones are zeros).
+    `rfc = true` is the RFC grammar; `rfc = false` drops the requirement of a digit between a sign and the point or the
+    end — that is what the code accepts (finding F2). -/
+def DecLexWs (rfc : Bool) (fd : Nat) (s : Bytes) (k : Int) : Prop :=
+  ∃ l sg ip fr r, ∃ point : Bool,
+    s = l ++ (sg ++ ip ++ (if point then 46 :: fr else [])) ++ r ∧ l.all isSpace = true ∧ r.all isSpace = true ∧ IsSign sg ∧
+    ip.all isDigit = true ∧ fr.all isDigit = true ∧ (point = true → fr ≠ []) ∧ (point = false → fr = []) ∧
+    (if rfc then ip ≠ [] else (ip ≠ [] ∨ sg ≠ [])) ∧
+    k * 10 ^ fr.length = applySign sg (valOf 10 (ip ++ fr)) * 10 ^ fd
 
 /-- canonical form of an integer (RFC 7950 §9.2.2): no `+`, no leading zeros, `0` not negative -/
 def IsCanonInt (s : Bytes) : Prop :=
